@@ -58,6 +58,7 @@ def lst(xs): return "[" + "; ".join(xs) + "]"
 def nl(xs): return lst([str(x) for x in xs])
 def chunk(c):
     if c[0] == 2: return "ChErr"
+    if c[0] == 3: return "(cond_chunk %s)" % lst(["(%d, %d)" % (e // 4, e % 4) for e in c[1:]])
     return "(Ch %s %s)" % (nl(c[1:]), "false" if c[0] == 0 else "true")
 def lmsg(m):
     if m[0] == 2: return "LErr"
